@@ -532,6 +532,7 @@ func streamC12(r *hx.Rng) {
 				o.typ = "has"
 			}
 			before := ownerSet(rc.rt, m)
+			rangeBad := ""
 			out := guard(func() string {
 				switch o.typ {
 				case "set":
@@ -558,8 +559,23 @@ func streamC12(r *hx.Rng) {
 					return "none"
 				case "range":
 					var ns []int32
-					if err := csproto.RangeExtensions(m, func(_ interface{}, _ string, f int32) error { ns = append(ns, f); return nil }); err != nil {
+					got := map[int32]string{}
+					if err := csproto.RangeExtensions(m, func(v interface{}, _ string, f int32) error {
+						ns = append(ns, f)
+						got[f] = fmt.Sprintf("%T %s", v, fromGo(v))
+						return nil
+					}); err != nil {
 						return "err"
+					}
+					// the VALUES handed to the callback are what the owning runtime's own Range hands out (Go type and contents)
+					if pm, ok := m.(proto.Message); ok && rc.rt == "google" {
+						proto.RangeExtensions(pm, func(xt protoreflect.ExtensionType, v interface{}) bool {
+							n := int32(xt.TypeDescriptor().Number())
+							if want := fmt.Sprintf("%T %s", v, fromGo(v)); got[n] != want && rangeBad == "" {
+								rangeBad = fmt.Sprintf("extension %d: callback got %s, the runtime's Range gives %s", n, got[n], want)
+							}
+							return true
+						})
 					}
 					sort.Slice(ns, func(i, j int) bool { return ns[i] < ns[j] })
 					return fmtNums(ns)
@@ -573,6 +589,9 @@ func streamC12(r *hx.Rng) {
 			})
 			if o.typ == "clear" && out == "panic" {
 				out = "docpanic"
+			}
+			if rangeBad != "" {
+				fail("RangeExtensions hands the callback other values than the owning runtime's own Range", fmt.Sprintf("runtime=%s history=%s %s", rc.rt, strings.Join(toks, " "), o.token()), "same Go type and contents", rangeBad, "ext-range-value")
 			}
 			toks = append(toks, o.token())
 			outs = append(outs, out)
